@@ -68,7 +68,7 @@ Qed.
 (* each new linearised view contains the previous one as a subsequence, for every total ordering
    (hash-tiebreak always; default ordering on tie-free logs; with ties see known finding K2) *)
 Theorem C05_values_subsequence ops more r l l' :
-  wf (ops ++ more) -> Z.of_nat (length (ops ++ more)) < two63 ->
+  wf (ops ++ more) -> hist_bound (ops ++ more) < two63 ->
   nth_error (s_logs (run ops)) r = Some l -> nth_error (s_logs (run (ops ++ more))) r = Some l' ->
   order_total l -> order_total l' ->
   exists v v', values l = Some v /\ values l' = Some v' /\ subseq (oslice v) (oslice v').
@@ -76,7 +76,7 @@ Proof.
   intros W Hlen L L' O O'.
   pose proof (wf_from_app _ _ _ W) as W0.
   destruct (sinv_run (ops ++ more) W) as [UO' IL']. destruct (sinv_run ops W0) as [UO IL].
-  assert (Hlen0 : Z.of_nat (length ops) < two63) by (rewrite app_length in Hlen; lia).
+  assert (Hlen0 : hist_bound ops < two63) by (pose proof (hist_bound_app_l ops more); lia).
   pose proof (times_in_range ops r l W0 Hlen0 L) as T. pose proof (times_in_range (ops ++ more) r l' W Hlen L') as T'.
   destruct (C05_monotone_over_histories ops more r l W L) as [l2 [L2 Sub]]. rewrite L' in L2. injection L2 as <-.
   destruct (values_spec _ l UO (IL r l L) T O) as [v [V [_ [B [_ D]]]]].
